@@ -41,8 +41,8 @@ T = {
  'C09': ('static analysis: effect pairing in the forward passes (PAIR), index-space typing (IXT), data-flow of the executable list (FLOW), eq/hash (HASH), aligned lists (ALIGN), even-parity of tentative swaps (UNDO), field completeness of PassData.become (FIELDS)',
          'Decides: every change of pi is mirrored by an emitted swap (and vice versa) on every path; emitted locations are physical; operations are emitted only if _can_exe held; mapping writes are well typed and placed after the forward pass; CouplingGraph hash is order independent; the permutation-aware passes enumerate their permutation tables in aligned order; swap scoring takes its tentative swap back on every exit.',
          'Equality of output and input under the mappings, termination of the uphill escape and connectivity of placements are NOT decided.'),
- 'C10': ('static analysis: guarded accept over all numerical passes (GA), radix belief contradiction (RADIX), rule-template protocol (TEMPLATE), effect restriction (EFF), alternative-spelling agreement (ALTSPELL), ordered-complement slices (STABLEMOVE), operation-parameter flow (PARAMFLOW), enumeration index identity (ENUMID), adjoint-spelling agreement (ADJOINT)',
-         'Decides: every numerical pass commits a candidate only under cost < threshold linked to that candidate and the pass target; qubit-only constructions are not fed radix-dependent gates; rule passes drop their source gate, introduce the advertised target and replace every collected point; removal passes only pop; the two spellings of a rotation receive the same angle; moving the multiplexor target keeps the select order; re-wrapped blocks keep their operation\'s parameters; an enumerate() index used as an identifier is taken over the unfiltered sequence; matrices the pinned tree adjoins are not merely transposed or conjugated.',
+ 'C10': ('static analysis: guarded accept over all numerical passes (GA), radix belief contradiction (RADIX), rule-template protocol (TEMPLATE), effect restriction (EFF), alternative-spelling agreement (ALTSPELL), ordered-complement slices (STABLEMOVE), operation-parameter flow (PARAMFLOW), enumeration index identity (ENUMID), adjoint-spelling agreement (ADJOINT), unclipped inverse sine/cosine (NANDOM)',
+         'Decides: every numerical pass commits a candidate only under cost < threshold linked to that candidate and the pass target; qubit-only constructions are not fed radix-dependent gates; rule passes drop their source gate, introduce the advertised target and replace every collected point; removal passes only pop; the two spellings of a rotation receive the same angle; moving the multiplexor target keeps the select order; re-wrapped blocks keep their operation\'s parameters; an enumerate() index used as an identifier is taken over the unfiltered sequence; matrices the pinned tree adjoins are not merely transposed or conjugated; no pass takes arccos/arcsin of an unclipped matrix-derived value.',
          'Algebraic correctness of rules and decompositions is arithmetic over reals and NOT decided.'),
  'C11': ('static analysis: CFG specifications of control passes (SPEC), co-update and data-flow rules for ForEachBlockPass (COUP, FLOW), capture/restore pairing (PAIR), field completeness (FIELDS), operation-parameter flow into the per-block sub-circuit (PARAMFLOW)',
          'Decides: each control pass runs its bodies under exactly the predicate edges its specification names; ForEachBlockPass records point/op/error together from positions captured before the body ran and writes back once; rejected branches restore circuit and data; PassData.become restores every field.',
@@ -65,8 +65,8 @@ T = {
  'C17': ('static analysis: registry agreement between QASM writer and reader tables and between grammar, evaluator and the OpenQASM 2 function set (REG), translator data-flow (FLOW), register-offset cursor discipline and index-space typing in the reader (REGOFF), declare-once in the writer (DECLONCE), bracket / spliced-number clauses of the expression evaluator (REG-rules), parameter cursor of custom gate definitions (CURSOR), ascending index inserts (INSERTORD)',
          'Decides: every statically named gate spelling the writer can emit is in the reader table with the same arity and constructor (known gaps reported); grammar function terminals = evaluator table = OpenQASM 2 set; every semantic grammar rule has a visitor method; translators go through the QASM codec; every register-local qubit index reaches the circuit only shifted by its register\'s offset, computed by a cursor that starts at 0 and advances by each register\'s size; the writer declares each register once; the evaluator keeps the brackets of a parenthesised sub-expression and brackets every spliced argument; a custom gate definition hands each inner gate its own parameter slice.',
          'Unitary agreement with Qiskit and parameter binding in nested definitions are NOT decided.'),
- 'C18': ('static analysis: eq/hash consistency (HASH), override pairing (OVERRIDE), value-numbered agreement of get_unitary/get_grad/get_unitary_and_grad (TRIAD), gradient literal shapes (GRADSHAPE, SIBTEMP), order-sensitive folds (KRONFOLD, INSERTORD), adjoint-spelling agreement (ADJOINT), no angle from a quotient (ATAN), symbolic differentiation of hand-written unitaries in the sin/cos/phase polynomial ring (GRADSYM), magnitude-blind optimisers (MAGBLIND), totality of calc_params under the inherited optimize (TOTAL)',
-         'Decides: all gate classes have consistent, order-independent eq/hash; inverse methods are overridden together; the three evaluation entry points of delegating gates are the same expressions; hand-written gradient literals have one matrix per parameter with the unitary\'s shape; Kronecker folds keep the accumulator on the left; index inserts run in ascending order; matrices the pinned tree adjoins are not merely transposed or conjugated; optimize() recovers angles with a two-argument arctangent, never from a quotient; for the gates written out as matrices of sines, cosines and phases (U2, U3, CKM, CKMdg) every gradient entry equals the symbolic derivative of the unitary entry; no optimize() computes a parameter from the separate phases of several environment entries it multiplies; a class inheriting GeneralGate.optimize has a calc_params without content-dependent raise.',
+ 'C18': ('static analysis: eq/hash consistency (HASH), override pairing (OVERRIDE), value-numbered agreement of get_unitary/get_grad/get_unitary_and_grad (TRIAD), gradient literal shapes (GRADSHAPE, SIBTEMP), order-sensitive folds (KRONFOLD, INSERTORD), adjoint-spelling agreement (ADJOINT), no angle from a quotient (ATAN), symbolic differentiation of hand-written unitaries in the sin/cos/phase polynomial ring (GRADSYM), magnitude-blind optimisers (MAGBLIND), totality of calc_params under the inherited optimize (TOTAL), unclipped inverse sine/cosine (NANDOM), unguarded division by a recovered angle\'s sine/cosine in calc_params (DEGEN)',
+         'Decides: all gate classes have consistent, order-independent eq/hash; inverse methods are overridden together; the three evaluation entry points of delegating gates are the same expressions; hand-written gradient literals have one matrix per parameter with the unitary\'s shape; Kronecker folds keep the accumulator on the left; index inserts run in ascending order; matrices the pinned tree adjoins are not merely transposed or conjugated; optimize() recovers angles with a two-argument arctangent, never from a quotient; for the gates written out as matrices of sines, cosines and phases (U2, U3, CKM, CKMdg) every gradient entry equals the symbolic derivative of the unitary entry; no optimize() computes a parameter from the separate phases of several environment entries it multiplies; a class inheriting GeneralGate.optimize has a calc_params without content-dependent raise; arccos/arcsin arguments are clipped or normalised ratios and calc_params does not divide by an unguarded sine/cosine of a recovered angle (U8Gate.calc_params: six known findings).',
          'Unitarity, derivative values outside that fragment (delegating, expm- and kron-based gates), calc_params and agreement with the binary expression backend are numerical and NOT decided.'),
  'C19': ('static analysis: returns-receiver path rule, effect restriction on the receiver circuit (EFF), arg-min selection idiom over the four multi-start siblings, in both the sort and the running-minimum spelling (ARGMIN), parameter-vector order (CURSOR), clone comparison of the UnitaryBuilder contractions (CLONE)',
          'Decides: Circuit.instantiate returns self on every path; from instantiate and every instantiater only set_params mutates the receiver; all multi-start selectors keep the candidate of least Hilbert-Schmidt cost against (circuit, target); Circuit.params is the concatenation in iteration order.',
